@@ -144,6 +144,74 @@ theorem dominatedByWipe_sound (x : String) (sizes : List String) (before : List 
       · exact ⟨by intro l'; simp, by intro d' f' a' fl' heq; cases heq⟩
       · exact hp s hin
 
+/-- an accepted reach set contains every configuration some path leads to -/
+theorem reachSet_complete (env : KEnv) (prog : List Stmt) (r : List KCfg) (h : reachSet env prog = some r) :
+    ∀ c, KReach env prog c → c ∈ r := by
+  unfold reachSet at h
+  split at h
+  · next r' _ =>
+    split at h
+    · next hc =>
+      cases h
+      unfold closedSet at hc
+      simp only [Bool.and_eq_true, List.all_eq_true, List.contains_iff_mem] at hc
+      intro c hr
+      induction hr with
+      | start => exact hc.1
+      | step _ hs ih => exact hc.2 _ ih _ hs
+    · cases h
+  · cases h
+
+/-- `errorPathsClean`: on EVERY path through the function (`KReach`: unboundedly long, loops included), whenever the
+    statement reached releases the key object as it is (`free` of the object or an alias, or a `realloc` of it), the
+    object is not `dirty` there — no statement on the way from its allocation or last whole-object wipe stored
+    key-derived data into it (`applyEff_dirty` below: `dirty` arises from such a store and from nothing else). -/
+theorem errorPathsClean_sound (obj : String) (secrets scalars : List String) (body : List Stmt)
+    (h : errorPathsClean obj secrets scalars body = true) :
+    ∀ c, KReach (mkKEnv obj secrets scalars body) body c → ∀ s, body[c.1]? = some s →
+      effect (mkKEnv obj secrets scalars body) s = .release → c.2 ≠ .dirty := by
+  intro c hr s hs he hd
+  unfold errorPathsClean at h
+  simp only [Bool.and_eq_true] at h
+  obtain ⟨_, h⟩ := h
+  split at h
+  · next r hrs =>
+    have hin := reachSet_complete _ _ r hrs c hr
+    have hb := (List.all_eq_true.mp h) c hin
+    simp [badAt, hs, he, hd] at hb
+  · cases h
+
+/-- the object becomes `dirty` only through a statement that stores key-derived data into it … -/
+theorem applyEff_dirty (k : KSt) (e : Eff) (h : applyEff k e = .dirty) : e = .store ∨ (k = .dirty ∧ e = .none) := by
+  cases k <;> cases e <;> simp_all [applyEff]
+
+/-- … every such statement makes it `dirty`, and it stays `dirty` until it is wiped over its whole allocated size,
+    released, or replaced by a new block -/
+theorem applyEff_store (k : KSt) : applyEff k .store = .dirty := by cases k <;> rfl
+theorem applyEff_stays_dirty (e : Eff) (h : applyEff .dirty e ≠ .dirty) :
+    e = .release ∨ e = .wipedRelease ∨ e = .wipe ∨ e = .fresh := by
+  cases e <;> simp_all [applyEff]
+
+/-- what counts as such a store: the arguments mention a key-derived name, and the destination is not a plain
+    variable or a function that may write through its arguments is handed the object (or an alias) -/
+theorem effect_store (env : KEnv) (dst fn : String) (args : List String) (fail : Option String)
+    (h : effect env (.call dst fn args fail) = .store) : storesKey env dst fn args = true := by
+  unfold effect at h
+  simp only at h
+  split at h
+  · cases h
+  · split at h
+    · cases h
+    · split at h
+      · split at h
+        · split at h <;> cases h
+        · cases h
+      · split at h
+        · split at h <;> cases h
+        · split at h
+          · assumption
+          · cases h
+
 /-! ## the verdicts on the current source (every preprocessor configuration) -/
 
 /-- SHA-256, SHA-1, MD5: `*_Final` ends by zeroing the whole context object. -/
@@ -199,6 +267,33 @@ theorem aes_key_free_dispatch_nonvacuous :
     (callsOf aesKeyFree).any (fun c => c.2.1 == "crypto_aes_key_free_aesni" && mentions "key" c.2.2) = true ∧
     freesSomething "key" aesKeyFree = true := by decide +kernel
 
+/-- the parameter that carries the raw key in the key-expand functions / the expanded key in `crypto_aesctr_init` -/
+def keyParams : List String := ["key_unexpanded"]
+
+/-- Key-expand functions: in every configuration, on every path (success, failing allocation, failing
+    `AES_set_encrypt_key`, unsupported key length) the key object is never handed back to the allocator by a plain
+    `free` after a statement that may have stored key-derived data into it.  Today the only unwiped `free(kexp)` is
+    reached from the allocation directly (unsupported length) or from a failed `AES_set_encrypt_key`. -/
+theorem aes_key_expand_error_paths_clean :
+    allConfigs aesKeyExpandConfigs (errorPathsClean "kexp" keyParams aesKeyExpandScalars) = true ∧
+    allConfigs aesKeyExpandAesniConfigs (errorPathsClean "kexp" keyParams aesKeyExpandAesniScalars) = true ∧
+    allConfigs aesKeyExpandArmConfigs (errorPathsClean "kexp" keyParams aesKeyExpandArmScalars) = true ∧
+    allConfigs aesctrAllocConfigs (errorPathsClean "stream" ["key"] aesctrAllocScalars) = true ∧
+    allConfigs aesctrInitConfigs (errorPathsClean "stream" ["key"] aesctrInitScalars) = true :=
+  ⟨by decide +kernel, by decide +kernel, by decide +kernel, by decide +kernel, by decide +kernel⟩
+
+/-- non-vacuity of the above: in every configuration of each key-expand function some path returns an object that
+    holds key-derived data (the key parameter is recognised and its stores are seen) and some path releases the
+    object (there is an error path to judge); `crypto_aesctr_init` stores the key pointer into the stream. -/
+theorem aes_key_expand_paths_nonvacuous :
+    allConfigs aesKeyExpandConfigs (returnsLoadedObject "kexp" keyParams aesKeyExpandScalars) = true ∧
+    allConfigs aesKeyExpandConfigs (releasesOnSomePath "kexp" keyParams aesKeyExpandScalars) = true ∧
+    allConfigs aesKeyExpandAesniConfigs (returnsLoadedObject "kexp" keyParams aesKeyExpandAesniScalars) = true ∧
+    allConfigs aesKeyExpandAesniConfigs (releasesOnSomePath "kexp" keyParams aesKeyExpandAesniScalars) = true ∧
+    allConfigs aesKeyExpandArmConfigs (returnsLoadedObject "kexp" keyParams aesKeyExpandArmScalars) = true ∧
+    allConfigs aesKeyExpandArmConfigs (releasesOnSomePath "kexp" keyParams aesKeyExpandArmScalars) = true ∧
+    allConfigs aesctrInitConfigs (returnsLoadedObject "stream" ["key"] aesctrInitScalars) = true := by decide +kernel
+
 /-- AES-CTR stream objects likewise. -/
 theorem aesctr_stream_wiped_before_free :
     allConfigs aesctrFreeConfigs (freesSomething "stream") = true ∧
@@ -252,6 +347,40 @@ example : allConfigs
      ("", [.cond "key == NULL" "<return>", .call "" "insecure_memzero" ["key", "sizeof(AES_KEY)"] none,
            .call "" "free" ["key"] none])]
     (freesAreWiped "key" ["sizeof(AES_KEY)"]) = false := by decide
+/-- the first round key is loaded before the key length is looked at: the `default:` branch frees raw key bytes -/
+example : errorPathsClean "kexp" ["key_unexpanded"] ["len"]
+    [.call "kexp" "malloc" ["sizeof(struct K)"] (some "err0"),
+     .call "kexp->rkeys[0]" "_mm_loadu_si128" ["(const __m128i *)&key_unexpanded[0]"] none,
+     .cond "case 16" "<case2>", .goto "<case3>",
+     .label "<case2>", .call "" "expand_128" ["kexp->rkeys"] none, .goto "<swend1>",
+     .label "<case3>", .goto "err1",
+     .label "<swend1>", .ret,
+     .label "err1", .call "" "free" ["kexp"] none, .label "err0", .ret] = false := by decide +kernel
+/-- the same with the load inside the accepted cases only, or with a whole-object wipe before the `free`: accepted -/
+example : errorPathsClean "kexp" ["key_unexpanded"] ["len"]
+    [.call "kexp" "malloc" ["sizeof(struct K)"] (some "err0"),
+     .cond "case 16" "<case2>", .goto "<case3>",
+     .label "<case2>", .call "kexp->rkeys[0]" "_mm_loadu_si128" ["(const __m128i *)&key_unexpanded[0]"] none, .goto "<swend1>",
+     .label "<case3>", .goto "err1",
+     .label "<swend1>", .ret,
+     .label "err1", .call "" "free" ["kexp"] none, .label "err0", .ret] = true := by decide +kernel
+example : errorPathsClean "kexp" ["key_unexpanded"] ["len"]
+    [.call "kexp" "malloc" ["sizeof(struct K)"] (some "err0"),
+     .call "" "memcpy" ["kexp->raw", "key_unexpanded", "16"] none,
+     .cond "len != 16" "err1", .ret,
+     .label "err1", .call "" "insecure_memzero" ["kexp", "sizeof(struct K)"] none, .call "" "free" ["kexp"] none,
+     .label "err0", .ret] = true := by decide +kernel
+/-- through a local copy and an alias, in a loop whose error exit is taken on a later round; a partial wipe does not count -/
+example : errorPathsClean "kexp" ["key_unexpanded"] ["len", "i"]
+    [.call "kexp" "malloc" ["sizeof(struct K)"] (some "err0"),
+     .call "rk" "" ["kexp->rkeys"] none,
+     .label "<loop1>", .cond "!(<loop>)" "<endloop2>",
+     .cond "i >= 2" "err1",
+     .call "" "memcpy" ["tmp", "&key_unexpanded[16 * i]", "16"] none,
+     .call "rk[i]" "load" ["tmp"] none,
+     .goto "<loop1>", .label "<endloop2>", .ret,
+     .label "err1", .call "" "insecure_memzero" ["kexp", "16"] none, .call "" "free" ["kexp"] none,
+     .label "err0", .ret] = false := by decide +kernel
 /-- a line buffer grown by `getline` -/
 example : noHiddenRealloc [.call "" "getline" ["&buf", "&buflen", "f"] none] = false := by decide
 /-- a release hidden in the error block of a failing call is walked (out-of-line block, `goto` followed) -/
